@@ -117,7 +117,7 @@ func runC17(r *Run) {
 
 	// (2) the predicate
 	is := "chain/momentum.(*momentumStore).IsSporkActive"
-	r.Alias("$sp", "recv.GetAllDefinedSporks()#0[(iter+1)]")
+	r.Alias("$sp", "recv.GetAllDefinedSporks()#0[iter]")
 	r.Branch(is, "T($sp.Activated)", "only activated sporks count")
 	r.Branch(is, "le($sp.EnforcementHeight,recv.GetFrontierMomentum()#0.Height)", "active from the enforcement height on, measured on the view's own frontier")
 	r.Branch(is, "eq(a0.SporkId,$sp.Id)", "the asked spork is matched by id")
@@ -203,7 +203,7 @@ func runC17(r *Run) {
 
 	// (5) unimplemented enforced spork stops the node
 	ga := "chain.GotAllActiveSporksImplemented"
-	r.Alias("$gs", "a0.GetAllDefinedSporks()#0[(iter+1)]")
+	r.Alias("$gs", "a0.GetAllDefinedSporks()#0[iter]")
 	r.Branch(ga, "T($gs.Activated)", "same activation test as the predicate")
 	r.Branch(ga, "le($gs.EnforcementHeight,a0.GetFrontierMomentum()#0.Height)", "same height test as the predicate")
 	r.Branch(ga, "T(types.ImplementedSporksMap[$gs.Id]#1)", "membership in the implemented set")
